@@ -111,11 +111,11 @@ Definition BOUND := 4294967288.
 
 (* the slot at byte address a of the single segment M reads as a pointer denoting v *)
 Definition reads_as (M : list Z) (a : Z) (v : value) : Prop :=
-  exists dep rl q rl', readPtr true [M] rl 0 M a dep = (Ok q, rl') /\ den true [M] 0 [] q v.
+  exists dep rl q rl', readPtr true [M] rl 0 M a dep = (Ok q, rl') /\ forall mid caps, den true [M] mid caps q v.
 
 Lemma reads_null M a : 0 <= a -> a + 8 <= zlen M -> zlen M <= BOUND -> word_is M a 0 -> reads_as M a VNull.
 Proof.
-  intros Ha Hb Hl Hw. exists 1, 0, nullPtr, 0. split; [apply read_zero_word; assumption|]. apply den_null. reflexivity.
+  intros Ha Hb Hl Hw. exists 1, 0, nullPtr, 0. split; [apply read_zero_word; assumption|]. intros mid caps. apply den_null. reflexivity.
 Qed.
 
 Section Copy.
@@ -410,8 +410,8 @@ Proof.
       destruct (Post pre' tail Lp Hwd Hbound) as (rl' & RR).
       set (M := pre' ++ (bs ++ repeat 0 pad) ++ tail) in *.
       set (q := mkPtr true 0 (zlen D) n (p_size src) (uint_dec 1) KList false (p_bit src) false) in *.
-      exists 1, 4294967288, q, rl'. split; [exact RR|].
-      apply (den_prim true [M] 0 [] q w vs); try reflexivity; try assumption.
+      exists 1, 4294967288, q, rl'. split; [exact RR|]. intros mid caps.
+      apply (den_prim true [M] mid caps q w vs); try reflexivity; try assumption.
       { intros i Hi0. cbn [q p_len] in Hi0.
         destruct (K i Hi0) as (d & Sd & Ev).
         rewrite slice_ok in Sd by (unfold zlen in *; nia). apply Ok_inj in Sd. subst d.
@@ -453,7 +453,7 @@ Proof.
       destruct (Post pre' tail Lp Hwd Hbound) as (rl' & RR).
       set (M := pre' ++ (bs ++ repeat 0 pad) ++ tail) in *.
       set (q := mkPtr true 0 (zlen D) n (p_size src) (uint_dec 1) KList false (p_bit src) false) in *.
-      exists 1, 4294967288, q, rl'. split; [exact RR|].
+      exists 1, 4294967288, q, rl'. split; [exact RR|]. intros mid caps.
       replace (bits_of (Z.to_nat n) bs) with (bits_of (Z.to_nat (p_len q)) bs) by reflexivity.
       apply den_bits; try reflexivity; try assumption.
       unfold seg_of. cbn [q p_seg p_off p_len Z.to_nat nth]. rewrite Ebl.
@@ -473,9 +473,9 @@ Lemma struct_den M q A dn pn dws vs' :
   zlen dws = dn -> Forall w64 dws -> sub M A (8 * dn) = bytes_of_words dws ->
   zlen vs' = pn ->
   (forall i, 0 <= i < pn -> reads_as M (A + 8 * dn + 8 * i) (nthv vs' i)) ->
-  den true [M] 0 [] q (VStruct dws vs').
+  forall mid caps, den true [M] mid caps q (VStruct dws vs').
 Proof.
-  intros Hv Hk Hs Ho Hsz HA Hdn Hpn Hb Hl Ldw Hw Hsub Lvs Hp.
+  intros Hv Hk Hs Ho Hsz HA Hdn Hpn Hb Hl Ldw Hw Hsub Lvs Hp mid caps.
   rewrite <- (words_of_bytes_of_words dws Hw).
   apply den_struct; try assumption.
   - rewrite Hsz. unfold wf_size. cbn [DataSize PointerCount]. lia.
@@ -486,7 +486,7 @@ Proof.
     destruct (Hp i Hi) as (dep & rl & q0 & rl' & R & Dq). exists dep, rl, q0, rl'.
     unfold seg_of. rewrite Hs. cbn [Z.to_nat nth].
     rewrite pointerAddress_eq by (rewrite ?Ho, ?Hsz; cbn [DataSize]; unfold BOUND in *; lia).
-    rewrite Ho, Hsz. cbn [DataSize]. split; [exact R|exact Dq].
+    rewrite Ho, Hsz. cbn [DataSize]. split; [exact R|exact (Dq mid caps)].
 Qed.
 
 Lemma wp_step f : P_cs f -> P_wp (S f).
@@ -663,7 +663,7 @@ Theorem copy_value_struct : forall m f D cap rl dst s ws vs A dn pn w',
   den true m 0 [] s (VStruct ws vs) -> forallb cvdom vs = true ->
   copy_struct f true (dstw D cap m rl) dst InSrc s = Ok w' ->
   exists D' cap' rl', w' = dstw D' cap' m rl' /\ hinv D' /\
-    den true [D'] 0 [] dst (resize (VStruct ws vs) (Z.to_nat dn) (Z.to_nat pn)).
+    forall mid caps, den true [D'] mid caps dst (resize (VStruct ws vs) (Z.to_nat dn) (Z.to_nat pn)).
 Proof.
   intros m f D cap rl dst s ws vs A dn pn w' Hm Hi Hdst Hkd HA HAm Hdn Hpn Hb Hv Hk Hwf Hal D0 Hsd H.
   destruct (P_all m Hm f) as [_ HC].
